@@ -131,6 +131,9 @@ func eventOf(ev event.Event, conn int) bool {
 // does not depend on when exactly each one was recorded)
 func runDiffOnce(in *DInput, withOthers bool) ([]string, string) {
 	udp := in.Svc == TFTP || in.Svc == MCUDP
+	if in.Svc == FTP {
+		resetFtpTree() // a probe cut short may leave a directory behind
+	}
 	var e *engine
 	var u *udpRunner
 	if udp {
@@ -394,14 +397,16 @@ func tableOf(svc int) table {
 		}
 	case REDIS:
 		return table{
-			others: lines("*1\r\n$4\r\nINFO\r\n", "*2\r\n$4\r\ninfo\r\n$6\r\nserver\r\n", "*2\r\n$4\r\ninfo\r\n$3\r\nall\r\n", "*1\r\n$4\r\nPING\r\n",
+			others: lines("*1\r\n$4\r\nINFO\r\n", "*2\r\n$4\r\ninfo\r\n$6\r\nserver\r\n", "*2\r\n$4\r\ninfo\r\n$3\r\nall\r\n", "*1\r\n$4\r\nPING\r\n", "*2\r\n$4\r\nINFO\r\n$6\r\nSERVER\r\n", "*2\r\n$4\r\ninfo\r\n$7\r\nclients\r\n",
+				"*2\r\n$4\r\ninfo\r\n$6\r\nmemory\r\n", "*2\r\n$4\r\ninfo\r\n$11\r\npersistence\r\n", "*2\r\n$4\r\nInfo\r\n$5\r\nStats\r\n", "*2\r\n$4\r\ninfo\r\n$11\r\nreplication\r\n",
+				"*2\r\n$4\r\ninfo\r\n$3\r\ncpu\r\n", "*2\r\n$4\r\ninfo\r\n$7\r\ncluster\r\n", "*2\r\n$4\r\ninfo\r\n$8\r\nKEYSPACE\r\n", "*2\r\n$4\r\ninfo\r\n$7\r\ndefault\r\n",
 				"*3\r\n$3\r\nSET\r\n$1\r\nk\r\n$1\r\nv\r\n", "*3\r\n$3\r\nSET\r\n", "$1\r\nk\r\n", "\r\n", "+OK\r\n", ":5\r\n", "*1\r\n*1\r\n$4\r\nINFO\r\n", "*0\r\n", "?x\r\n"),
-			probe: lines("*1\r\n$4\r\nPING\r\n", "*2\r\n$4\r\ninfo\r\n$7\r\nclients\r\n", "*3\r\n$3\r\nSET\r\n$1\r\nk\r\n$1\r\nv\r\n", "*2\r\n$3\r\nGET\r\n$1\r\nk\r\n",
+			probe: lines("*1\r\n$4\r\nPING\r\n", "*2\r\n$4\r\ninfo\r\n$6\r\nserver\r\n", "*2\r\n$4\r\ninfo\r\n$7\r\nclients\r\n", "*2\r\n$4\r\ninfo\r\n$5\r\nstats\r\n", "*3\r\n$3\r\nSET\r\n$1\r\nk\r\n$1\r\nv\r\n", "*2\r\n$3\r\nGET\r\n$1\r\nk\r\n",
 				"*2\r\n$4\r\ninfo\r\n$8\r\nkeyspace\r\n", "\r\n", "*3\r\n$4\r\ninfo\r\n$1\r\na\r\n$1\r\nb\r\n"),
 		}
 	case MEMCACHED:
 		return table{
-			others: lines("flush_all\r\n", "stats\r\n", "get k\r\n", "set k 0 0 3\r\nabc\r\n", "set k 0 0 100\r\nshort\r\n", "add k 0 0 1\r\nx\r\n",
+			others: lines("flush_all\r\n", "stats\r\n", "get k\r\n", "set k 0 0 3\r\nabc\r\n", "set k 0 0 100\r\nshort\r\n", "set big 0 0 78\r\n"+strings.Repeat("OTHER-CLIENT-", 6)+"\r\n", "append big 0 0 120\r\n"+strings.Repeat("other.client.", 9)+"abc\r\n", "add k 0 0 1\r\nx\r\n",
 				"replace k 0 0 1\r\nx\r\n", "append k 0 0 1\r\nx\r\n", "prepend k 0 0 1\r\nx\r\n", "cas k 0 0 1 7\r\nx\r\n", "delete k\r\n", "incr k 1\r\n", "bogus\r\n", "\r\n", "set k 0 0\r\n"),
 			probe: lines("stats\r\n", "set pk 1 2 5\r\nprobe\r\n", "get pk\r\n", "add pk 0 0 2\r\nzz\r\n", "flush_all\r\n", "cas pk 0 0 1 9\r\ny\r\n", "quit\r\n"),
 		}
@@ -580,6 +585,92 @@ func splitProbe(r *hx.Rand, p DSess) DSess {
 	return out
 }
 
+// text protocols: a spelling variant of a request changes the case of its letters only
+func textProto(svc int) bool {
+	switch proto(svc) {
+	case FTP, SMTP, REDIS, MEMCACHED, TELNET, HTTP:
+		return true
+	}
+	return false
+}
+
+func recase(b []byte, mode int) []byte {
+	out := append([]byte(nil), b...)
+	word := true
+	for i, c := range out {
+		isL := c >= 'a' && c <= 'z'
+		isU := c >= 'A' && c <= 'Z'
+		switch mode {
+		case 0: // upper
+			if isL {
+				out[i] = c - 32
+			}
+		case 1: // lower
+			if isU {
+				out[i] = c + 32
+			}
+		default: // Title
+			if isL && word {
+				out[i] = c - 32
+			} else if isU && !word {
+				out[i] = c + 32
+			}
+		}
+		word = !(isL || isU)
+	}
+	return out
+}
+
+// the probe respelt; and a shadow session that sends, just before every request of the probe, the
+// same request in another spelling from another client
+func recaseSess(p DSess, mode int) DSess {
+	out := DSess{Conn: p.Conn}
+	for _, st := range p.Steps {
+		if st.Kind == "send" {
+			st.Data = recase(st.Data, mode)
+		}
+		out.Steps = append(out.Steps, st)
+	}
+	return out
+}
+
+// the probe cut short: its first j requests, then the first part of the next one, then the
+// client disconnects (the service is left in the middle of a line / a data block / a BER value)
+func cutProbe(p DSess, j, at int) DSess {
+	out := DSess{Conn: p.Conn}
+	n := 0
+	for _, st := range p.Steps {
+		if st.Kind != "send" {
+			out.Steps = append(out.Steps, st)
+			continue
+		}
+		if n == j {
+			k := at
+			if k >= len(st.Data) {
+				k = len(st.Data) - 1
+			}
+			if k > 0 {
+				out.Steps = append(out.Steps, DStep{Kind: "send", Data: st.Data[:k]})
+			}
+			break
+		}
+		out.Steps = append(out.Steps, st)
+		n++
+	}
+	out.Steps = append(out.Steps, DStep{Kind: "close"})
+	return out
+}
+
+func sends(p DSess) int {
+	n := 0
+	for _, st := range p.Steps {
+		if st.Kind == "send" {
+			n++
+		}
+	}
+	return n
+}
+
 func variantsOf(svc int) []string {
 	var vs []string
 	for v := range tableOf(svc).probes {
@@ -708,6 +799,77 @@ func genDiff(r *hx.Rand, tier string) []DInput {
 				ins = append(ins, in)
 			}
 		}
+		// the probe ENDS ABRUPTLY at every point: after j requests and a part of the next the client
+		// disconnects; earlier and concurrent sessions have left longer data (sweep of the whole table).
+		// Error paths are where stale buffers show.
+		if !udp {
+			base := probeOf(svc, connID(0), "main")
+			for j := 0; j < sends(base); j++ {
+				if tier == "quick" && (j+int(r.U64()%2))%2 == 1 && sends(base) > 8 {
+					continue // quick: about every other cut point of the long probes
+				}
+				var data []byte
+				n := 0
+				for _, st := range base.Steps {
+					if st.Kind == "send" {
+						if n == j {
+							data = st.Data
+						}
+						n++
+					}
+				}
+				// cut points: a random one, and one or two bytes into whatever follows a line break
+				// inside the request (a data block, a header, the next element)
+				ats := []int{r.Range(1, len(data))}
+				breaks := 0
+				for i := 1; i < len(data)-1 && breaks < 2; i++ {
+					if data[i-1] == '\n' {
+						breaks++
+						ats = append(ats, i+1)
+						if i+2 < len(data) && tier != "quick" {
+							ats = append(ats, i+2)
+						}
+					}
+				}
+				if tier != "quick" {
+					ats = append(ats, 1, len(data)-1, len(data)/2)
+				}
+				for n, at := range ats {
+					modes := []string{r.PickStr([]string{"before", "before", "woven"})}
+					if n > 0 && n <= breaks {
+						modes = []string{"before", "woven"} // inside a data block: after and among the others
+					}
+					for _, mode := range modes {
+						in := DInput{Svc: svc, Variant: "cut", Probe: cutProbe(base, j, at), Others: sweepOthers(svc, []int{ids4[0], ids6[1], ids4[2]})}
+						orderOf(r, &in, mode)
+						ins = append(ins, in)
+					}
+				}
+			}
+		}
+		// spelling: the probe in upper / lower / Title case, after and among sessions that use the
+		// other spellings of the very same requests (a shadow of the probe, one step ahead of it)
+		if textProto(svc) {
+			base := probeOf(svc, connID(0), "main")
+			for mode := 0; mode < 3; mode++ {
+				for other := 0; other < 3; other++ {
+					if other == mode || (tier == "quick" && (mode+other)%2 == 0 && mode != 0) {
+						continue
+					}
+					shadow := recaseSess(probeOf(svc, ids6[0], "main"), other)
+					in := DInput{Svc: svc, Variant: "spelling", Probe: recaseSess(base, mode), Others: []DSess{shadow}}
+					// shadow: open, then always one request ahead of the probe
+					in.Order = []int{1, 1}
+					for range in.Probe.Steps {
+						in.Order = append(in.Order, 0, 1)
+					}
+					ins = append(ins, in)
+					in2 := DInput{Svc: svc, Variant: "spelling", Probe: recaseSess(base, mode), Others: []DSess{shadow}}
+					orderOf(r, &in2, "before")
+					ins = append(ins, in2)
+				}
+			}
+		}
 		// long sequential histories: so many complete earlier sessions, then the probe
 		hists := []int{1, 10, 100}
 		if udp {
@@ -795,6 +957,12 @@ func diffPart(o hx.Opts, r *hx.Rand, only *DInput) {
 		}
 		if in.Variant == "split" {
 			dist["probe-requests-arrive-in-pieces"]++
+		}
+		if in.Variant == "cut" {
+			dist["probe-disconnects-mid-request"]++
+		}
+		if in.Variant == "spelling" {
+			dist["probe-and-shadow-session-in-different-spellings"]++
 		}
 		if in.Variant == "" {
 			in.Variant = "main"
